@@ -1,6 +1,7 @@
 """Query properties C01-C03, C06-C08 (and the constructor part of C04): generators and observation of the real curies."""
 from __future__ import annotations
 
+import os
 import random
 
 from .codec import WILD, Some, opt
@@ -403,8 +404,36 @@ def use_as_derivation_input(c):
             pass
 
 
+def use_as_export_source(c):
+    """Everything that only READS a converter: the four writers with every flag combination, the accessors, the mapping-service
+    graph.  None of this may change what c answers; whatever c then holds is what is queried (mode 7)."""
+    import tempfile
+    import curies
+
+    with tempfile.TemporaryDirectory(prefix="verif_q7_") as tmp:
+        path = os.path.join(tmp, "out")
+        attempts = [lambda: curies.write_extended_prefix_map(c, path)]
+        for syn in (False, True):
+            for exp in (False, True):
+                attempts.append(lambda syn=syn, exp=exp: curies.write_jsonld_context(c, path, include_synonyms=syn, expand=exp))
+            attempts.append(lambda syn=syn: curies.write_shacl(c, path, include_synonyms=syn))
+        attempts.append(lambda: curies.write_tsv(c, path))
+        attempts.append(lambda: curies.write_tsv(c, path, header=("p", "u")))
+        attempts += [
+            lambda: (c.get_prefixes(include_synonyms=True), c.get_uri_prefixes(include_synonyms=True), c.get_prefixes(), c.get_uri_prefixes()),
+            lambda: (dict(c.bimap), dict(c.prefix_map), dict(c.reverse_prefix_map), dict(c.synonym_to_prefix), dict(c.pattern_map)),
+            lambda: [r.model_dump() for r in c.records],
+            lambda: (repr(c), str(c)),
+        ]
+        for a in attempts:
+            try:
+                a()
+            except Exception:
+                pass
+
+
 def build_converter(recs, d, mode, warm=None):
-    """The converter the records denote, built in one of seven ways (5: the constructor fed with a one-shot iterable; 6: the
+    """The converter the records denote, built in one of eight ways (7: the constructor, after which every read-only export -- the writers with all flag combinations, the accessors -- has run; 5: the constructor fed with a one-shot iterable; 6: the
     constructor, after which the converter serves as INPUT of chain / get_subconverter / remap_* / rewire calls whose results are
     thrown away); the first five are: (the properties quantify over every converter, however
     it came about): 0 the constructor; 1 Converter([]) + add_record one by one; 2 bare records first (add_prefix without synonym
@@ -421,6 +450,10 @@ def build_converter(recs, d, mode, warm=None):
     if mode == 6:
         c = curies.Converter(mk_records(recs), **flags(delimiter=d))
         use_as_derivation_input(c)
+        return c
+    if mode == 7:
+        c = curies.Converter(mk_records(recs), **flags(delimiter=d))
+        use_as_export_source(c)
         return c
     c = curies.Converter([], **flags(delimiter=d))
     step = (lambda: warm(c)) if (mode == 4 and warm) else (lambda: None)
@@ -504,7 +537,7 @@ def gen_qcase(rng: random.Random, focus: str):
                 strs.append(r[1] + "1")
         strs = list(dict.fromkeys(strs))
     pairs = gen_pairs(rng, recs, rng.randint(0, 2) if focus not in ("C02", "C08") else rng.randint(1, 3))
-    return [recs, d, strs, pairs, rng.choice([0, 0, 0, 1, 2, 2, 3, 3, 4, 4, 4, 5, 5, 6, 6])]
+    return [recs, d, strs, pairs, rng.choice([0, 0, 0, 1, 2, 2, 3, 3, 4, 4, 4, 5, 5, 6, 6, 7, 7])]
 
 
 def nontrivial_q(focus: str, case) -> bool:
